@@ -75,6 +75,10 @@ def run_case(case, env):
         os.symlink(d / 'x' / 'y', d / 'lnk')
         path = d / 'x' / 'data.darr'
         stored = gens.distinct_values(rng, dtype, shape) if int(np.prod(shape)) else np.zeros(shape, dtype)
+        if (len(shape) + case['fill'] + gens.T13.index(nt)) % 2:
+            # process history: the same process has made a ragged array (with its own read code and README) before
+            res.count('obs.ragged_array_made_earlier_in_process')
+            D.asraggedarray(d / 'rag', [[1, 2], [3]], dtype='int64')
         a = D.asarray(path, stored.copy(), chunklen=3)
         if mode == 'abspath' and sum(shape) % 2:
             # the handle is opened through a path in which '..' follows a symbolic link: only resolving the
@@ -154,6 +158,20 @@ def run_case(case, env):
                     f['mech'] = 'stale-handle:' + f['mech']
                     f['msg'] = f'after {how}, readcode() of the first handle: ' + f['msg']
                 sigs.add((nt, bo, shape, lang, 'after-external-change'))
+        # ---- an array whose README.txt was removed is still an array: running the code must not change it either
+        if mode == 'relative' and case['fill'] == 0 and not res.fails and (path / 'README.txt').exists():
+            (path / 'README.txt').unlink()
+            res.count('mon.no_readme_stage')
+            fresh = D.Array(path)
+            n0 = len(res.fails)
+            for lang in ('darr', 'numpy', 'numpymemmap'):
+                code = fresh.readcode(lang)
+                if code is not None:
+                    cur = fresh[:]
+                    check_python_family(res, D, lang, code, path, cwd, token, cur, case, empty=not cur.size)
+            for f in res.fails[n0:]:
+                f['mech'] = 'no-readme:' + f['mech']
+                f['msg'] = 'array directory without README.txt: ' + f['msg']
         res.sig = {repr(s) for s in sigs}
         res.nontrivial = bool(sigs)
         res.evals = max(1, len(sigs))
